@@ -173,7 +173,7 @@ func (e *Enc) applyContractVars(x ssa.Value, name string, fc *FuncC, vars map[st
 		e.assumeTyped(res.At(i).Type(), rvals[i].T, st)
 	}
 	cpost := &Ctx{e: e, st: st, old: pre, vars: vars}
-	for _, en := range fc.Ens {
+	for _, en := range append(append([]Clause{}, fc.Ens...), fc.EnsAssumed...) {
 		if e.fc != nil && len(e.fc.Uses) > 0 && len(en.Tags) > 0 {
 			used := false
 			for _, t := range en.Tags {
@@ -337,6 +337,9 @@ func (e *Enc) invoke(x *ssa.Call, st *State) {
 		panic(unsupported{"interface call " + name + " without contract"})
 	}
 	args := []Val{e.val(cc.Value)}
+	if args[0].Loc == nil {
+		e.safety("nil", tNot(tEq(args[0].T, tInt(0))), x.Pos()) // a method call on a nil interface panics
+	}
 	for _, a := range cc.Args {
 		args = append(args, e.val(a))
 	}
